@@ -19,6 +19,7 @@ fn handler_script(tag: &str) -> String {
   run: {{|frame|
     if $frame.topic == "fail" {{ error make {{msg: "failing-on-purpose"}} }}
     if $frame.topic == "slow" {{ sleep 4sec; return }}
+    if $frame.topic == "slowfail" {{ sleep 1sec; error make {{msg: "failing-late"}} }}
     if $frame.topic != "probe" {{ return }}
     {{ans: $frame.id, tag: "{tag}"}}
   }}
@@ -234,6 +235,45 @@ fn case(srv: &mut Srv, seed: u64, res: &mut CaseResult) -> R<()> {
     let d0 = json!({"events": h.events, "same_handler_name_in_two_contexts": h.same_name_two_contexts});
     if before.handlers != model_set {
         res.find(&["C16"], "before-restart/answering-handlers-differ-from-the-model", json!({"case": d0, "answering": before.handlers, "model": model_set}));
+    }
+    if rng.chance(350) {
+        // directed: a handler is replaced while it is busy and then *fails*: its failure report (an `.unregistered`
+        // carrying an error) lands after the replacement's registration; the replacement is what is active
+        if let Some(old) = before.handlers.iter().next().cloned() {
+            let ci = ctxs.iter().position(|c| ctx_label(c, &ctxs) == old.0).unwrap_or(0);
+            srv.must_append("slowfail", ctxs[ci], None, None, None)?;
+            std::thread::sleep(Duration::from_millis(150));
+            let f = srv.must_append(&format!("{}.register", old.1), ctxs[ci], Some(handler_script("replacement-of-a-failing-one").as_bytes()), None, None)?;
+            let (hid, tn) = (f.id.to_string(), format!("{}.registered", old.1));
+            let announced = srv.wait(Duration::from_secs(5), |log| log.iter().any(|x| x.topic == tn && meta_str(x, "handler_id") == Some(&hid)))?;
+            let un = format!("{}.unregistered", old.1);
+            let reported = srv.wait(Duration::from_secs(8), |log| log.iter().any(|x| x.topic == un && meta_str(x, "handler_id") == Some(&old.2)))?;
+            if announced && reported {
+                srv.settle(Duration::from_millis(300), Duration::from_secs(10))?;
+                // every other handler of that context failed on the same frame
+                for n in HNAMES {
+                    h.model_handlers.insert((ci, n), None);
+                }
+                if let Some(n) = HNAMES.iter().find(|n| **n == old.1) {
+                    h.model_handlers.insert((ci, *n), Some(f.id));
+                }
+                h.events.push(format!("directed:replaced-while-busy-then-failed:{}@{}", old.1, ci));
+                res.count("directed.failure_report_after_replacement", 1);
+                let (b2, _) = probe(srv, &ctxs, &cnames, 5)?;
+                let model_set: BTreeSet<(String, String, String)> = h
+                    .model_handlers
+                    .iter()
+                    .filter_map(|((ci, n), v)| v.map(|id| (ctx_label(&ctxs[*ci], &ctxs), n.to_string(), id.to_string())))
+                    .collect();
+                if b2.handlers != model_set {
+                    res.find(&["C16"], "before-restart/answering-handlers-differ-from-the-model", json!({"events": h.events, "answering": b2.handlers, "model": model_set}));
+                }
+                before = b2;
+            } else {
+                res.inconclusive = Some("the busy-then-failing replacement scenario did not play out within its watchdogs".into());
+                return Ok(());
+            }
+        }
     }
     for r in 0..restarts {
         let mut kill = rng.chance(700);
